@@ -76,6 +76,14 @@ def make_pool(darsia, rng):
         P["G"] = darsia.Geometry(space_dim=2, num_voxels=(H, W), dimensions=[0.5 * H, 0.25 * W])
         P["mask"] = rs.rand(H, W) > 0.3
         P["fitopts"] = {"tol": 1e-3, "maxiter": 20}
+        # a bimodal signal with a two-region label map and caller-owned label-wise threshold bounds (float64 arrays / lists)
+        P["sig"] = np.where(rs.rand(40, 40) < 0.5, 0.2 + 0.05 * rs.randn(40, 40), 0.7 + 0.05 * rs.randn(40, 40))
+        P["siglabels"] = np.zeros((40, 40), dtype=int)
+        P["siglabels"][:, 20:] = 1
+        P["sigmask"] = np.ones((40, 40), dtype=bool)
+        P["thr_lo"] = np.array([0.0, 0.1])
+        P["thr_hi"] = np.array([0.9, 0.95])
+        P["thr_lo_list"] = [0.0, 0.1]
     P["_shape"] = (H, W)
     return P
 
@@ -156,6 +164,13 @@ def registry(darsia):
     add("scaling_unit_array", lambda P, r: darsia.ScalingModel(scaling=3.0)(P["arrA"]))
     add("combined_array", lambda P, r: darsia.CombinedModel([darsia.LinearModel(scaling=2.0), darsia.ClipModel(**{"max value": 9.0})])(P["arrA"]))
     add("threshold_array", lambda P, r: darsia.StaticThresholdModel(2.0, 6.0)(P["arrA"], P["mask"]))
+    add("threshold_labels_arrays", lambda P, r: darsia.StaticThresholdModel(P["thr_lo"], P["thr_hi"], labels=P["siglabels"])(P["sig"], P["sigmask"]))
+    for meth in ("otsu", "tailored global min", "tailored otsu"):
+        add("dynamic_threshold_" + meth.replace(" ", "_"), lambda P, r, meth=meth: darsia.DynamicThresholdModel(meth, P["thr_lo"], P["thr_hi"], P["siglabels"])(P["sig"]))
+    add("dynamic_threshold_twice", lambda P, r: (lambda m: (m(P["sig"]), m(P["sig"], P["sigmask"])))(darsia.DynamicThresholdModel("otsu", P["thr_lo"], P["thr_hi"], P["siglabels"])))
+    add("threshold_manager_dynamic", lambda P, r: darsia.ThresholdModel(labels=P["siglabels"], **{"threshold dynamic": True, "threshold method": "otsu",
+                                                                                                  "threshold value min": P["thr_lo_list"], "threshold value max": P["thr_hi"]})(P["sig"]))
+    add("hetlinear_labels", lambda P, r: darsia.HeterogeneousLinearModel(P["siglabels"].astype(np.uint8), scaling=P["thr_hi"], offset=P["thr_lo"])(P["sig"]))
     # integration and distances
     add("integrate_image", lambda P, r: P["G"].integrate(P["A"]), mut=["G"])
     add("integrate_array", lambda P, r: P["G"].integrate(P["arrA"]), mut=["G"])
